@@ -54,7 +54,7 @@ var sizes = types.SizesFor("gc", "amd64")
 func sizeOf(t types.Type) int64 { return sizes.Sizeof(t) }
 
 func typeKey(t types.Type) string {
-	return types.TypeString(t, func(p *types.Package) string { return pkgShort(p) })
+	return types.TypeString(types.Unalias(t), func(p *types.Package) string { return pkgShort(p) })
 }
 
 func pow2(n uint) *big.Int { return new(big.Int).Lsh(big.NewInt(1), n) }
@@ -187,6 +187,7 @@ func structOf(t types.Type) *types.Struct {
 }
 
 func fieldKey(structType types.Type, idx int) string {
+	structType = types.Unalias(structType)
 	s := structType.Underlying().(*types.Struct)
 	return typeKey(structType) + "." + s.Field(idx).Name()
 }
